@@ -63,7 +63,19 @@ func boxBase() string {
 }
 
 func newBox(tag string) (*fsbox, error) {
-	root := filepath.Join(boxBase(), fmt.Sprintf("%d-%s", os.Getpid(), tag))
+	base := boxBase()
+	// remove boxes left behind by workers that no longer exist
+	if ents, err := os.ReadDir(base); err == nil {
+		for _, e := range ents {
+			var pid int
+			if _, err := fmt.Sscanf(e.Name(), "%d-", &pid); err == nil && pid > 0 {
+				if _, err := os.Stat(fmt.Sprintf("/proc/%d", pid)); os.IsNotExist(err) {
+					os.RemoveAll(filepath.Join(base, e.Name()))
+				}
+			}
+		}
+	}
+	root := filepath.Join(base, fmt.Sprintf("%d-%s", os.Getpid(), tag))
 	b := &fsbox{Root: root}
 	return b, b.reset()
 }
